@@ -7,6 +7,10 @@
 (* One JSON event per API call, logged at the call's return:               *)
 (*   {"op":"new","p32":k}               Quantile::new(k/32)                *)
 (*   {"op":"small","cnt":c}             add() while fewer than five are in *)
+(*   {"op":"add_nd", ...}               as "add", for p = k/10              *)
+(*   every add also carries twin_equal: a second estimator that is          *)
+(*   serialised and restored (serde) before every observation has exactly   *)
+(*   the same serialised state and estimate (C18)                           *)
 (*   {"op":"add","rank":r,"pos":[..],"cnt":c,"minok":b,"maxok":b,          *)
 (*         "sorted":b,"inrange":b,"len":c}                                 *)
 (*        r  = number of marker heights <= x before the call (from the     *)
@@ -44,6 +48,7 @@ TNew == /\ IsEvent("new")
 TSmall == /\ IsEvent("small")
           /\ cnt < 5 /\ cnt' = cnt + 1 /\ Ev.cnt = cnt'
           /\ Ev.len = cnt' /\ Ev.inrange
+          /\ Ev.twin_equal                             \* C18: Checkpoint is a stuttering step
           /\ UNCHANGED <<pp, pos, des>>
 
 \* first marker whose position is incremented, from the number of heights <= x
@@ -56,13 +61,27 @@ TAdd == /\ IsEvent("add")
         /\ pos' = Ev.pos                              \* the code moved exactly these markers
         /\ pos'[1] = 1 /\ pos'[5] = cnt'              \* extreme markers at positions 1 and n
         /\ Ev.minok /\ Ev.maxok /\ Ev.sorted /\ Ev.inrange
+        /\ Ev.twin_equal
         /\ UNCHANGED pp
+
+\* p not exactly representable (k/10): the code's rounded desired positions may legitimately
+\* differ from the exact ones at a tie, so the positions are taken from the log and only the
+\* bookkeeping, the C15 invariants and the serde twin (C18) are required
+TAddND == /\ IsEvent("add_nd")
+          /\ cnt >= 5 /\ cnt' = cnt + 1 /\ Ev.cnt = cnt' /\ Ev.len = cnt'
+          /\ pos' = Ev.pos /\ des' = des
+          /\ pos'[1] = 1 /\ pos'[5] = cnt'
+          /\ \A i \in 1..4 : pos'[i] < pos'[i + 1]
+          /\ \A i \in 2..4 : pos'[i] - pos[i] \in {-1, 0, 1, 2}
+          /\ Ev.minok /\ Ev.maxok /\ Ev.sorted /\ Ev.inrange
+          /\ Ev.twin_equal
+          /\ UNCHANGED pp
 
 \* Quantile::new(p) for p outside [0,1] or NaN must panic (C15)
 TNewInvalid == /\ IsEvent("new_invalid") /\ Ev.panicked
                /\ UNCHANGED <<pp, cnt, pos, des>>
 
-TNext == TNew \/ TSmall \/ TAdd \/ TNewInvalid
+TNext == TNew \/ TSmall \/ TAdd \/ TAddND \/ TNewInvalid
 
 TSpec == TInit /\ [][TNext]_tvars
 
